@@ -241,6 +241,37 @@ func vfE4GenStream(r *vfRand, noneg bool, hist map[string]int) ([]byte, []string
 	return buf.Bytes(), dec
 }
 
+// vfE4DecodeTable: every byte range the server could hand to json.Unmarshal for this stream
+// (after any "IDENTIFY\n" + 4-byte size that fits), with what encoding/json makes of it.
+func vfE4DecodeTable(data []byte) []string {
+	seen := map[string]bool{}
+	var out []string
+	pat := []byte("IDENTIFY")
+	for i := 0; i+len(pat) <= len(data); i++ {
+		if !bytes.Equal(data[i:i+len(pat)], pat) {
+			continue
+		}
+		// the rest of the line (anything up to the newline), then the size
+		j := bytes.IndexByte(data[i:], '\n')
+		if j < 0 {
+			continue
+		}
+		k := i + j + 1
+		if k+4 > len(data) {
+			continue
+		}
+		n := int(int32(binary.BigEndian.Uint32(data[k : k+4])))
+		if n <= 0 || k+4+n > len(data) || n > 1<<16 {
+			continue
+		}
+		if d := vfE4Decode(data[k+4 : k+4+n]); d != "" && !seen[d] {
+			seen[d] = true
+			out = append(out, d)
+		}
+	}
+	return out
+}
+
 // TestVerifE4Hostile: generated hostile streams, each on a fresh connection, next to the
 // bystander. The line about to run is printed (and flushed) first, so a dying process names
 // its input.
@@ -267,7 +298,8 @@ func TestVerifE4Hostile(t *testing.T) {
 			by = id
 			id++
 		}
-		data, dec := vfE4GenStream(r, noneg, hist)
+		data, _ := vfE4GenStream(r, noneg, hist)
+		dec := vfE4DecodeTable(data)
 		line := fmt.Sprintf("%d stream %d %s", env.vnow, id, vfHex(data))
 		if len(dec) > 0 {
 			line += " " + strings.Join(dec, " ")
